@@ -85,6 +85,7 @@ type ProtocolManager struct {
 	fetchConfirms    chan []GetConfirmInfo
 	lastSyncTime     int64
 	lastSyncToHeight uint32
+	syncLock         sync.Mutex
 
 	wg     sync.WaitGroup
 	quitCh chan struct{}
@@ -227,7 +228,7 @@ func (pm *ProtocolManager) rcvBlockLoop() {
 			log.Info("BlockLoop finished")
 			return
 		case block := <-pm.newMinedBlockCh:
-			log.Debugf("Current peers count: %d", len(pm.peers.peers))
+			log.Debugf("Current peers count: %d", pm.peers.Size())
 			peers := pm.peers.DeputyNodes(block.Height())
 			go pm.broadcastBlock(peers, block, true)
 		case rcvMsg := <-pm.rcvBlocksCh:
@@ -468,7 +469,7 @@ func (pm *ProtocolManager) peerLoop() {
 				pm.testOutput <- testForceSync
 			}
 		case <-discoverTimer.C: // time to discover
-			if len(pm.peers.peers) < params.LeastPeersToDiscover {
+			if pm.peers.Size() < params.LeastPeersToDiscover {
 				p := pm.peers.BestToDiscover()
 				if p != nil {
 					go p.SendDiscover()
@@ -655,6 +656,8 @@ func (pm *ProtocolManager) findSyncFrom(rStatus *LatestStatus) (uint32, error) {
 // syncBlocks sync blocks with throttle algorithm
 func (pm *ProtocolManager) syncBlocks(p *peer, from, to uint32) bool {
 	// to avoid sync blocks from different peer at same time
+	pm.syncLock.Lock()
+	defer pm.syncLock.Unlock()
 	var timeDelay int64
 	if from != to {
 		// multi blocks sync on be happened once a minute
